@@ -46,7 +46,7 @@ def _case(draw, gs):
 
 def strategy(tier):
     return st.one_of(
-        _case(gen.admgs(2, 7)),
+        _case(gen.with_odd_names(gen.admgs(2, 7), 6)),
         _case(gen.admgs(3, 7, bi_densities=(1, 2, 3), di_densities=(1, 2, 3))),  # sparse: isolated nodes, many districts
         _case(gen.admgs(3, 6, bi_densities=(4, 6), di_densities=(4, 6))),
         _case(gen.embedded_admgs(3)),
